@@ -277,8 +277,8 @@ def oracle_worlds(case: dict) -> Outcome:
 
 
 STREAMS = {
-    "assign": Stream("assign", oracle=oracle_assign, strategy=strategy, quick=20000, thorough=400000, shards_quick=8, shards_thorough=16),
+    "assign": Stream("assign", oracle=oracle_assign, strategy=strategy, quick=20000, thorough=200000, shards_quick=8, shards_thorough=16),
     "assign_grid": Stream("assign_grid", oracle=oracle_assign, enumerate=enumerate_grid, exhaustive=True, shards_quick=8, shards_thorough=16),
-    "buffers": Stream("buffers", oracle=oracle_buffers, strategy=strategy, quick=6000, thorough=100000, shards_quick=4, shards_thorough=16),
-    "worlds": Stream("worlds", oracle=oracle_worlds, strategy=strategy_worlds, quick=200, thorough=3000, shards_quick=8, shards_thorough=16),
+    "buffers": Stream("buffers", oracle=oracle_buffers, strategy=strategy, quick=6000, thorough=60000, shards_quick=4, shards_thorough=16),
+    "worlds": Stream("worlds", oracle=oracle_worlds, strategy=strategy_worlds, quick=200, thorough=1500, shards_quick=8, shards_thorough=16),
 }
